@@ -1536,6 +1536,16 @@ static void *trampoline(void *arg)
 	 * live there), not stack. Only what lies below this frame is stack.
 	 */
 	me->stk_hi = (uintptr_t) __builtin_frame_address(0) + 256;
+	/*
+	 * Any thread -- also the library's own helpers (call_rcu, defer, resize worker and its partition
+	 * threads), which no scenario plans stalls for -- may be suspended once, for a long time, at an
+	 * arbitrary one of its first atomic accesses. Scenario-level plans override this one.
+	 */
+	if (G.thread_stalls && usim_below(US_SCHED, 3) == 0) {
+		me->stall_mask = (1u << Y_ATOMIC_LD) | (1u << Y_ATOMIC_ST) | (1u << Y_RMW) | (1u << Y_FENCE);
+		me->stall_ord = 1 + (int) usim_below(US_SCHED, 400);
+		me->stall_len = 100 + usim_below(US_SCHED, 3000);
+	}
 	ret = me->fn(me->arg);
 	thread_finish(me, ret);
 	return NULL;
@@ -1705,6 +1715,7 @@ void rt_begin(uint64_t rs, int tier)
 		static const uint32_t plains[] = { 0, 0, 16, 64, 256 };
 		G.stick = (uint32_t) usim_param("stick", sticks[usim_below(US_SCHED, 3)]);
 		G.sync_bias = (int) usim_param("sync_bias", usim_below(US_SCHED, 3) == 0);
+		G.thread_stalls = (int) usim_param("thread_stalls", usim_below(US_SCHED, 2));
 		G.p_plain = (uint32_t) usim_param("p_plain", plains[usim_below(US_SCHED, 5)]);
 		G.p_drain = (uint32_t) usim_param("p_drain", 1u << usim_below(US_SCHED, 6));
 	}
